@@ -225,7 +225,8 @@ func classK6(expr string, node promParser.Node) bool {
 
 // K7: an `unless on()` / `or on()` verdict ("... always returns something") whose deciding operand contains an
 // operator that can drop every series although the analyser keeps AlwaysReturns: a vector/vector binary
-// operation, absent()/absent_over_time(), clamp(), topk/bottomk.
+// operation, clamp(), topk/bottomk.  (absent()/absent_over_time() left the class with fix f3c0f95: the call
+// resets AlwaysReturns.)
 func classK7(node promParser.Node) bool {
 	return anyNode(node, func(n promParser.Node) bool {
 		b, ok := n.(*promParser.BinaryExpr)
@@ -246,7 +247,7 @@ func classK7(node promParser.Node) bool {
 			case *promParser.BinaryExpr:
 				return x.VectorMatching != nil
 			case *promParser.Call:
-				return x.Func.Name == "absent" || x.Func.Name == "absent_over_time" || x.Func.Name == "clamp"
+				return x.Func.Name == "clamp"
 			case *promParser.AggregateExpr:
 				return x.Op == promParser.TOPK || x.Op == promParser.BOTTOMK
 			}
@@ -475,11 +476,7 @@ func (pr *pqRunner) oracleC04(base pqCase, expr string, root promParser.Node, no
 					known = "C04-live-static-value-K6"
 				case classK7(n):
 					known = "C04-live-always-returns-K7"
-				case classK8(expr, n):
-					known = "C04-live-absent-of-dead-K8"
 				}
-			} else if countValuesName(n) {
-				known = "C04-count-values-name"
 			}
 			pr.failure(fmt.Sprintf("%d", base.ID), what, c, known)
 			break
@@ -489,31 +486,15 @@ func (pr *pqRunner) oracleC04(base pqCase, expr string, root promParser.Node, no
 			for _, l := range reported {
 				for _, ls := range res.Series {
 					if _, has := ls[l]; has {
-						known := ""
-						if countValuesName(n) && l == "__name__" {
-							known = "C04-count-values-name"
-						}
 						pr.failure(fmt.Sprintf("%d", base.ID),
 							fmt.Sprintf("C04: alerts/template reports label `%s` as non-existent for the single-branch query `%s` but the engine returns %s", l, expr, lsetKey(ls)),
-							c, known)
+							c, "")
 						break
 					}
 				}
 			}
 		}
 	}
-}
-
-// countValuesName: count_values("__name__", ...) re-creates the metric name the analyser excluded.
-func countValuesName(node promParser.Node) bool {
-	return anyNode(node, func(n promParser.Node) bool {
-		a, ok := n.(*promParser.AggregateExpr)
-		if !ok || a.Op != promParser.COUNT_VALUES {
-			return false
-		}
-		s, ok := a.Param.(*promParser.StringLiteral)
-		return ok && s.Val == "__name__" && !a.Without
-	})
 }
 
 // deadInherited: an operand whose result branches flow into n's branches already has only dead branches
@@ -536,18 +517,6 @@ func deadInherited(expr string, n promParser.Node) bool {
 		}
 	}
 	return false
-}
-
-// classK8: absent()/absent_over_time() of an operand all of whose branches are dead (the call returns a series
-// exactly because its operand returns nothing, but the analyser keeps the operand's dead flag on the call).
-func classK8(expr string, node promParser.Node) bool {
-	return anyNode(node, func(n promParser.Node) bool {
-		c, ok := n.(*promParser.Call)
-		if !ok || (c.Func.Name != "absent" && c.Func.Name != "absent_over_time") || len(c.Args) != 1 {
-			return false
-		}
-		return allDead(utils.LabelsSource(expr, c.Args[0]))
-	})
 }
 
 func allDead(srcs []utils.Source) bool {
@@ -584,7 +553,7 @@ func (pr *pqRunner) oracleC12(base pqCase, expr string, nodes []promParser.Node,
 		c.Sources = toJSONSources(srcs)
 		id := fmt.Sprintf("%d", base.ID)
 		// (A) every branch of the node is dead => the node returns nothing.  Only where the verdict is INTRODUCED:
-		// a parent inherits the flags of a dead operand, and absent(<dead>) does return a series.
+		// a parent inherits the flags of a dead operand (absent(<dead>) is not dead since fix f3c0f95).
 		if allDead(srcs) && !deadInherited(expr, n) {
 			pr.rep.hist("c12:all-branches-dead")
 			if res.Kind == "scalar" || len(res.Series) > 0 {
